@@ -1,29 +1,42 @@
 ------------------------------- MODULE HttpGate ------------------------------
-(* Design-level check and case export for C12 part (a); definitions in        *)
-(* HttpGateDefs.  K bounds the number of dimensions in which a request may    *)
-(* deviate from the well-formed request of its handler (quick: every single   *)
-(* fault and every pair; thorough: K = 4).                                    *)
-EXTENDS HttpGateDefs, Json, SequencesExt
+(* Case enumeration and design-level check for C12 part (a); definitions in   *)
+(* HttpGateDefs.  The state space is the tree of partial requests: one        *)
+(* dimension is fixed per step, and at most K dimensions may deviate from the *)
+(* well-formed request of the handler (quick: every single and every pair of  *)
+(* deviations and more; thorough: K = 4).  Every complete request is a leaf;  *)
+(* TLC evaluates the code-shaped Expected against the property on it and      *)
+(* exports the case.  A disagreement is a lead (DESIGN.md section 3): it must  *)
+(* be reproduced on the real handlers before it counts.                        *)
+EXTENDS HttpGateDefs, Json
 CONSTANT K
+VARIABLES kind, vals, used
+vars == <<kind, vals, used>>
 
-CaseSet == CasesK(K)
+Init == kind \in Kinds /\ vals = <<>> /\ used = 0
+Choose(v) == LET d == DimSeq[Len(vals) + 1]
+                 dev == v # Default(kind, d)
+             IN /\ dev => used < K
+                /\ vals' = Append(vals, v)
+                /\ used' = IF dev THEN used + 1 ELSE used
+                /\ UNCHANGED kind
+Next == Len(vals) < NDims /\ \E v \in Vals(kind, DimSeq[Len(vals) + 1]) : Choose(v)
+Spec == Init /\ [][Next]_vars
 
-\* Design: the code-shaped procedure against the property.  A disagreement is a lead (DESIGN.md section 3):
-\* it is exported and must be reproduced on the real handlers before it counts.
-Leads == {c \in CaseSet : \E o \in Outcomes(c) : ~Holds(c, o)}
-LeadJson(c) == [c |-> c, first |-> FirstFault(c), cls |-> FaultClass(c, FirstFault(c))]
-
-\* vacuity witnesses
-SomeReached == \A k \in Kinds : \E c \in CaseSet : c.kind = k /\ Expected(c).reach = "yes"
-SomeEachStatus == \A st \in {400, 403, 413, 415} : \E c \in CaseSet : Expected(c).status = st
-SomeEachCode == \A cd \in {CodeMismatch, CodeUnsupportedVersion, CodeInvalidParams} : \E c \in CaseSet : Expected(c).code = cd
-SomeEachFault == \A i \in DOMAIN FaultOrder : \E c \in CaseSet : FirstFault(c) = FaultOrder[i]
-\* every rejected request has a fault or is rejected by a rule that is stricter than the property (listed, not judged)
-Stricter == {c \in CaseSet : Faults(c) = {} /\ Expected(c).reach = "no"}
-
-ASSUME SomeReached /\ SomeEachStatus /\ SomeEachCode /\ SomeEachFault
-ASSUME PrintT(ToJson([cases |-> Cardinality(CaseSet), K |-> K, leads |-> Cardinality(Leads), stricter |-> Cardinality(Stricter),
-                      faulty |-> Cardinality({c \in CaseSet : Faults(c) # {}})]))
-ASSUME ndJsonSerialize("gate_leads.ndjson", SetToSeq({LeadJson(c) : c \in Leads}))
-ASSUME ndJsonSerialize("gate_cases.ndjson", SetToSeq(CaseSet))
+Complete == Len(vals) = NDims
+Case == ToCase(kind, vals)
+DesignOK(c) == \A o \in Outcomes(c) : Holds(c, o)
+\* state constraint, evaluated once per state of the tree: export the leaf
+Emit == IF Complete /\ ValidCase(Case)
+        THEN LET c == Case
+                 x == Expected(c)
+                 f == FirstFault(c)
+             IN PrintT(ToJson([gatecase |-> c, exp |-> x, first |-> f, cls |-> FaultClass(c, f), lead |-> ~DesignOK(c)]))
+        ELSE TRUE
+\* the type of what is enumerated
+TypeOK == /\ kind \in Kinds /\ used \in 0..K /\ Len(vals) <= NDims
+          /\ \A i \in DOMAIN vals : vals[i] \in Vals(kind, DimSeq[i])
+          /\ used = Cardinality({i \in DOMAIN vals : vals[i] # Default(kind, DimSeq[i])})
+\* a rejected request either violates a precondition or is rejected by a rule stricter than the property; a request that
+\* is handed to the server violates none (this is Sound on Expected, stated as an invariant so that TLC names the case)
+ExpectedSound == (Complete /\ ValidCase(Case)) => (Expected(Case).reach # "no" => Faults(Case) = {})
 =============================================================================
